@@ -187,6 +187,10 @@ def rtCase (id stratum : String) (r : Rep) : Case :=
 def srcCase (id stratum cls src model spec : String) : Case :=
   { id := id, cls := cls, kind := "reprrt", stratum := stratum, model := model, spec := spec, payload := [src] }
 
+/-- a source evaluated with the shared `eval` operation -/
+def srcCase' (id stratum src expected : String) : Case :=
+  { id := id, cls := "good", kind := "eval", stratum := stratum, model := expected, spec := expected, payload := [src] }
+
 /-- the printed text itself, for shapes whose element order is not a matter of the value order -/
 def textCase (id stratum : String) (r : Rep) : Case :=
   let t := (Impl.repr r).text
@@ -237,7 +241,10 @@ def genFragment : Gen (List Nat) := do
   | 10 => pure [92, 120, 52, 49]
   | 11 => pure [92, 117, 48, 48, 52, 49]
   | 12 => pure [92, 49, 48, 49]
-  | _ => pure [92, 105]                                                         -- \i with an empty indent
+  | _ => do
+    -- mostly \i (empty indent); sometimes an escape that must be rejected
+    if (← chance 3 4) then pure [92, 105]
+    else pick [[92, 113], [92, 120, 52, 103], [92, 52, 48, 48], [92, 117, 49, 50, 32, 120], [92, 58], [92, 85, 48, 48]]
 
 def readerCase (id : String) (body : List Nat) (q : Nat) : Case :=
   let src := strOf ([q] ++ utf8dec body ++ [q])
@@ -246,7 +253,8 @@ def readerCase (id : String) (body : List Nat) (q : Nat) : Case :=
     let v := V.mkSeq "@char" 0 ((utf8dec bs).map numV)
     { id := id, cls := "good", kind := "eval", stratum := "reader", model := v.canon, spec := v.canon, payload := [src] }
   | none =>
-    { id := id, cls := "KF-bad-escape-panics", kind := "eval", stratum := "reader/bad", model := "panic", spec := "error",
+    -- unknown / truncated / out-of-range escape: a compile error (it was a panic before the repair)
+    { id := id, cls := "good", kind := "eval", stratum := "reader/bad", model := "error", spec := "error",
       payload := [src] }
 
 def cps (s : List Nat) : String := ",".intercalate (s.map toString)
@@ -316,6 +324,10 @@ def corpus : List Case :=
     -- repaired: a relation with a non-identifier heading printed as {|a b| …}
     rtCase "C12-corpus-8" "corpus" (.rel [[97, 32, 98]] [[.num 1], [.num 2]]),
     rtCase "C12-corpus-9" "corpus" (.rel [[], [99]] [[.num 1, .num 2], [.num 3, .num 4]]),
+    -- repaired: bad escapes panicked in the compiler (C12-corpus-13..15 and -39..41)
+    readerCase "C12-corpus-39" [97, 92] 34,
+    srcCase' "C12-corpus-40" "corpus/bad-escape" "%\\" "error",
+    srcCase' "C12-corpus-41" "corpus/bad-escape" "(a: 1).'\\q'" "error",
     -- open findings
     rtCase "C12-corpus-10" "corpus" (.str 0 [97, -1, -1, 99]),
     rtCase "C12-corpus-11" "corpus" (.dict [(s [97], .num 1), (s [97], .num 2)]),
